@@ -269,8 +269,13 @@ def write_to(ctx, w, val):
         ctx.event(w0.ty.lower(), val)
         return
     if t is Agg and w0.ty == 'Cursor':
-        inner = w0.fields[0]
-        write_to(ctx, inner, val)
+        r = w
+        while type(r) is Ref and type(r.load()) is Ref:
+            r = r.load()
+        if type(r) is Ref:
+            write_to(ctx, r.extend(('f', 0)), val)
+        else:
+            write_to(ctx, w0.fields[0], val)
         return
     if t is VecV and type(w) is Ref:
         if type(val) is FmtV:
@@ -1019,6 +1024,21 @@ def install(prog):
     @B('std::io::Cursor::new', 'Cursor::new')
     def b_cursor_new(ctx, a, callee):
         return Agg('Cursor', None, (a[0],))
+
+    @B('std::io::Cursor::set_position', 'Cursor::set_position')
+    def b_cursor_set_position(ctx, a, callee):
+        if a[1] != 0:
+            raise Unsupported('Cursor::set_position to a non-zero offset')
+        return UNIT
+
+    @B('std::io::copy', 'copy')
+    def b_io_copy(ctx, a, callee):
+        src = D(a[0])
+        if not (type(src) is Agg and src.ty == 'Cursor'):
+            raise Unsupported('io::copy from %r' % (src,))
+        data = D(src.fields[0])
+        write_to(ctx, a[1], mkstr(sbytes(data)))
+        return ok(len(sbytes(data)))
 
     @B('std::io::Cursor::into_inner', 'Cursor::into_inner', 'std::io::Cursor::get_ref', 'Cursor::get_ref')
     def b_cursor_inner(ctx, a, callee):
